@@ -381,6 +381,10 @@ func (c *CEnv) evalBin(n *CBin) (TT, error) {
 			return TT{T(SBool, "(%s %s %s)", o, a.S, b.S), nil}, nil
 		}
 	}
+	if a.Sort == SStr && b.Sort == SStr && n.Op == "+" {
+		r := T(SStr, "(str_cat %s %s)", a.S, b.S)
+		return TT{r, types.Typ[types.String]}, nil
+	}
 	if a.Sort != SInt || b.Sort != SInt {
 		return TT{}, fmt.Errorf("arithmetic on %s and %s in %s", a.Sort, b.Sort, n)
 	}
